@@ -20,7 +20,7 @@ from hsim.core.runner import RunResult
 PROPERTY = "C04"
 CHUNK = {"quick": 400, "thorough": 1000}
 PROBES = ["whole_session_mode", "far_end_acks_an_injected_packet", "eviction", "back_with_later_injection", "ooo_below_injection", "retransmit_after_injection",
-          "skip_ahead", "inject_burst", "first_copy_is_a_resend", "resent_flag_on_retransmission"]
+          "skip_ahead", "inject_burst", "first_copy_is_a_resend", "resent_flag_on_retransmission", "straggler_ids_checked"]
 COMPONENTS = {
     "real": ["hippolyzer.lib.proxy.circuit.ProxiedCircuit.send/prepare_message",
              "hippolyzer.lib.proxy.circuit.InjectionTracker (small maxlen)",
@@ -58,6 +58,12 @@ def gen_session_plan(rng: random.Random, big: bool) -> dict:
                           "reliable": rng.random() < 0.3})
         elif x < 0.3:
             steps.append({"at": t, "op": "ucc", "v": 0, "r": 0, "again": True})
+        elif x < 0.34:
+            # the simulator (or the viewer) tears the circuit down; what is still in flight keeps arriving afterwards
+            nm = rng.choice(["CloseCircuit", "DisableSimulator"])
+            steps.append({"at": t, "op": "vsend" if nm == "CloseCircuit" else "ssend", "v": 0, "r": 0, "name": nm,
+                          "mseed": 0, "reliable": rng.random() < 0.5,
+                          "fate": rand_fate(rng, cfg["p_delay"], cfg["p_dup"])})
         elif x < 0.45:
             steps.append({"at": t, "op": rng.choice(["vsend", "ssend"]), "v": 0, "r": 0, "name": "x", "mseed": 0,
                           "retransmit_of": rng.randrange(50), "acks": rng.choice([0, 0, 1]),
